@@ -75,9 +75,10 @@ impl Prop for C06 {
             // following key like any other
             let custom = *r.pick(&["mlft", "(push-msg hi)", "(unicode x)", "mrgt"]);
             case.cfg = format!(
-                "(defcfg rapid-event-delay {red})\n(defsrc a b c d e)\n(deflayer l0 ({v} {t} {p}) 1 2 ({v} {t} {p2}) {custom})\n(deflayer l1 _ 3 4 _ _)\n"
+                "(defcfg rapid-event-delay {red})\n(defsrc a b c d e f)\n(deflayer l0 ({v} {t} {p}) 1 2 ({v} {t} {p2}) {custom} 5)\n(deflayer l1 _ 3 4 _ _ _)\n"
             );
             let e_key = oscode_of("e");
+            let f_key = oscode_of("f");
             let grid = |r: &mut Rng| -> u32 { *r.pick(&[0u64, 1, 1, 2, 3, t.saturating_sub(1), t, t + 1, red, red + 1, 7]) as u32 };
             let settle = (t + 40) as u32;
             let mut ops = vec![];
@@ -144,7 +145,35 @@ impl Prop for C06 {
                     let mut must_not: Vec<usize> = vec![];
                     let after_end = (red + 4) as u32;
                     for _ in 0..n {
-                        match r.pick_w(&[30, 30, 25, if is_pcancel(v) { 0 } else { 25 }, 25]) {
+                        match r.pick_w(&[30, 30, 25, if is_pcancel(v) { 0 } else { 25 }, 25, 30]) {
+                            5 => {
+                                // two overlapping following keys, the later one released first, then a
+                                // third key while the first is still held: press variants end at the
+                                // first press, release variants at the first release of ANY following key
+                                ops.push(Op::Press(a));
+                                ops.push(Op::Gap(2));
+                                ops.push(Op::Release(a));
+                                ops.push(Op::Gap(r.range(2, 4) as u32));
+                                must_mod.push(ops.len());
+                                ops.push(Op::Press(b));
+                                ops.push(Op::Gap(3));
+                                if is_press_variant(v) {
+                                    must_not.push(ops.len());
+                                } else {
+                                    must_mod.push(ops.len());
+                                }
+                                ops.push(Op::Press(c));
+                                ops.push(Op::Gap(3));
+                                ops.push(Op::Release(c));
+                                ops.push(Op::Gap(after_end));
+                                must_not.push(ops.len());
+                                ops.push(Op::Press(f_key));
+                                ops.push(Op::Gap(3));
+                                ops.push(Op::Release(f_key));
+                                ops.push(Op::Gap(3));
+                                ops.push(Op::Release(b));
+                                ops.push(Op::Gap(after_end));
+                            }
                             4 => {
                                 // the first following key is a custom-action key (mouse button,
                                 // message, unicode): it uses the one-shot up like any other key, so
@@ -389,7 +418,7 @@ impl Prop for C06 {
                         _ => {}
                     }
                 }
-                if e.kind == OutKind::Press && (e.key == "Kb1" || e.key == "Kb2") && e.in_idx >= 0 {
+                if e.kind == OutKind::Press && (e.key == "Kb1" || e.key == "Kb2" || e.key == "Kb5") && e.in_idx >= 0 {
                     let i = e.in_idx as usize;
                     if must_mod.contains(&i) {
                         judged += 1;
